@@ -242,12 +242,23 @@ def subrun(module, pid: str, prog, tier: str, seed: int = 0) -> Run:
     (AnalysisError) after it has already established violations, those are returned; otherwise the error
     propagates (the importing property cannot be decided either)."""
     from .facts import AnalysisError
+    key = (pid, id(prog), tier, seed)
+    hit = _SUBRUNS.get(key)
+    if hit is not None and hit[0] is prog:
+        if hit[2] is not None:
+            raise AnalysisError(hit[2])
+        return hit[1]
     sub = Run(pid, tier, seed, quiet=True)
     try:
         module.check(sub, prog, tier)
         if sub.deferred_errors:
             raise AnalysisError("; ".join(sub.deferred_errors))
-    except AnalysisError:
+    except AnalysisError as exc:
         if not sub.violations():
+            _SUBRUNS[key] = (prog, sub, str(exc))
             raise
+    _SUBRUNS[key] = (prog, sub, None)
     return sub
+
+
+_SUBRUNS: dict = {}  # (property, program, tier, seed) -> result: a supporting analysis is evaluated once per process
